@@ -147,6 +147,7 @@ pub struct Outcome {
     pub bursts: usize,
     pub transfers: usize,
     pub drops: usize,
+    pub big_dead_sends: usize,
     pub ops_hash: u64,
 }
 
@@ -172,6 +173,7 @@ pub struct Interp {
     pub transfers: usize,
     pub drops: usize,
     pub bursts: usize,
+    pub big_dead_sends: usize,
 }
 
 impl Interp {
@@ -187,6 +189,7 @@ impl Interp {
             transfers: 0,
             drops: 0,
             bursts: 0,
+            big_dead_sends: 0,
         }
     }
 
@@ -241,7 +244,19 @@ impl Interp {
     fn build_msg(&mut self, ch: usize) -> (PMsg, MMsg) {
         let id = self.fresh_id();
         let qlen = self.model.chans[ch].queue.len();
-        let len = if qlen < 8 && self.rng.chance(150) { self.rng.range(1024, 4096) } else { self.rng.below(700) } as usize;
+        // a send to a receiver that no longer exists must fail and queues nothing, so a multi-packet payload is
+        // safe there (single thread): the failing first packet of a fragmented send is a path of its own
+        let dead = !self.model.rx_alive(ch);
+        let len = if dead && !cfg!(miri) && self.rng.chance(350) {
+            static F1: std::sync::OnceLock<u64> = std::sync::OnceLock::new();
+            let f1 = *F1.get_or_init(|| crate::c01::sizes().f1 as u64);
+            self.big_dead_sends += 1;
+            self.rng.range(f1 + 1, 3 * f1)
+        } else if qlen < 8 && self.rng.chance(150) {
+            self.rng.range(1024, 4096)
+        } else {
+            self.rng.below(700)
+        } as usize;
         let mut m = PMsg { id, data: Blob(body(id, len)), senders: vec![], receivers: vec![], regions: vec![], fail: FailIf(false) };
         let mut mm = MMsg { id, len, senders: vec![], receivers: vec![], regions: vec![] };
         if self.rng.chance(450) {
@@ -808,7 +823,7 @@ impl Interp {
             }
         }
         let ops_hash = hash_of(&self.ops);
-        (Outcome { trace: self.trace, mismatch, bursts: self.bursts, transfers: self.transfers, drops: self.drops, ops_hash }, self.world, self.model)
+        (Outcome { trace: self.trace, mismatch, bursts: self.bursts, transfers: self.transfers, drops: self.drops, big_dead_sends: self.big_dead_sends, ops_hash }, self.world, self.model)
     }
 }
 
